@@ -53,6 +53,20 @@ def zoo():
         return net, {"break": ("ext_grid", "in_service", [0], False), "edit": ("sink", "mdot_kg_per_s", [0], 0.9)}
     z["custom"] = custom
 
+    def overridden():
+        """a library fluid (name 'water') one property of which the user has replaced: the stored net carries the user's property"""
+        from pandapipes.properties.fluids import FluidPropertyConstant
+        net = pp.create_empty_network("overridden water", fluid="water")
+        net.fluid.add_property("density", FluidPropertyConstant(930.0), overwrite=True)
+        net.fluid.add_property("viscosity", FluidPropertyConstant(2e-3), overwrite=True)
+        j = pp.create_junctions(net, 3, 5, 320)
+        pp.create_ext_grid(net, j[0], 5, 340, type="pt")
+        pp.create_pipe_from_parameters(net, j[0], j[1], 0.4, 80, k_mm=0.1, u_w_per_m2k=5)
+        pp.create_pipe_from_parameters(net, j[1], j[2], 0.3, 80, k_mm=0.1, u_w_per_m2k=5)
+        pp.create_sink(net, j[2], 1.2)
+        return net, {"break": ("ext_grid", "in_service", [0], False), "edit": ("sink", "mdot_kg_per_s", [0], 0.7)}
+    z["overridden"] = overridden
+
     def empty():
         net = pp.create_empty_network("empty", fluid="hgas", sector=Sector.GAS)
         return net, {"break": ("junction", "in_service", [], False), "edit": ("junction", "in_service", [], False)}
